@@ -346,7 +346,8 @@ func (e *Enc) applyContract(fr *Frame, st *State, fc *FuncContract, sig *types.S
 	pre := st.clone()
 	ec := &EvalCtx{e: e, st: st, old: pre, bind: bind, spec: fc.Spec}
 	for i, rq := range fc.Requires {
-		c, err := ec.evalBool(rq.Expr)
+		budget := conjBudget
+		cs, err := ec.evalConjuncts(rq.Expr, &budget)
 		if err != nil {
 			e.failed = fmt.Errorf("%s:%d: %v", rq.File, rq.Line, err)
 			return nil
@@ -355,9 +356,12 @@ func (e *Enc) applyContract(fr *Frame, st *State, fc *FuncContract, sig *types.S
 		if lab == "" {
 			lab = fmt.Sprintf("%d", i+1)
 		}
-		o := e.oblig(st, "pre", e.siteLabel(fr, name+":"+lab, pos), c, pos, rq.Tags, rq)
-		_ = o
-		e.assume(st, c)
+		for ci, c := range cs {
+			e.oblig(st, "pre", e.siteLabel(fr, name+":"+lab+conjSuffix(ci), pos), c, pos, rq.Tags, rq)
+		}
+		if whole, err := ec.evalBool(rq.Expr); err == nil {
+			e.assume(st, whole)
+		}
 	}
 	// havoc the modifies set
 	if !fc.HasMod && !fc.Pure {
@@ -1173,12 +1177,16 @@ func (e *Enc) releaseProtected(fr *Frame, st *State, recv ssa.Value, pos token.P
 		}
 		bind := map[string]TV{"self": {Val: self, Ty: selfT}}
 		ec := &EvalCtx{e: e, st: st, old: st, bind: bind, spec: pd.Spec}
-		inv, err := ec.evalBool(pd.Invariant)
+		// one obligation per conjunct (each is assumed once it has been checked)
+		budget := conjBudget
+		cs, err := ec.evalConjuncts(pd.Invariant, &budget)
 		if err != nil {
 			e.failed = fmt.Errorf("%s:%d: protects invariant: %v", pd.File, pd.Line, err)
 			return
 		}
-		e.check(st, "lock", e.siteLabel(fr, "protected-invariant-restored", pos), inv, pos)
+		for ci, inv := range cs {
+			e.check(st, "lock", e.siteLabel(fr, "protected-invariant-restored"+conjSuffix(ci), pos), inv, pos)
+		}
 	}
 }
 
@@ -1300,4 +1308,12 @@ func sortedHeapNames(m map[string]Val) []string {
 	}
 	sort.Strings(out)
 	return out
+}
+
+// splitConj flattens the top-level conjunction of a spec expression.
+func splitConj(x SExpr) []SExpr {
+	if b, ok := x.(*SBinary); ok && b.Op == "&&" {
+		return append(splitConj(b.X), splitConj(b.Y)...)
+	}
+	return []SExpr{x}
 }
